@@ -524,6 +524,10 @@ func (x *Exec) store(st *State, fr *Frame, l ast.Expr, v Term) {
 		if v.Ty == nil {
 			v.Ty = obj.Type()
 		}
+		if x.info.Defs[l] == obj {
+			// a definition is a new variable: forget the cell of a previous instance
+			delete(st.cells, obj)
+		}
 		x.setVar(st, obj, v)
 	case *ast.SelectorExpr:
 		x.storeField(st, fr, l, v)
@@ -563,6 +567,34 @@ func (x *Exec) getVar(st *State, obj types.Object) Term {
 	t.Ty = obj.Type()
 	st.vars[obj] = t
 	return t
+}
+
+// cellsForAddrTaken turns every variable of the state whose address is taken inside n into a
+// heap cell.
+func (x *Exec) cellsForAddrTaken(st *State, n ast.Node) {
+	var objs []types.Object
+	ast.Inspect(n, func(m ast.Node) bool {
+		if u, ok := m.(*ast.UnaryExpr); ok && u.Op == token.AND {
+			if id, ok := ast.Unparen(u.X).(*ast.Ident); ok {
+				if o := x.info.ObjectOf(id); o != nil {
+					objs = append(objs, o)
+				}
+			}
+		}
+		return true
+	})
+	for _, o := range objs {
+		if _, isCell := st.cells[o]; isCell {
+			continue
+		}
+		cur, ok := st.vars[o]
+		if !ok {
+			continue // declared inside the loop: a new variable (and cell) per iteration
+		}
+		r := x.alloc(st, "addr_"+o.Name(), types.NewPointer(o.Type()))
+		x.storeCell(st, r, cur)
+		st.cells[o] = r
+	}
 }
 
 func (x *Exec) setVar(st *State, obj types.Object, v Term) {
@@ -671,6 +703,10 @@ func (x *Exec) havocLoopTargets(st *State, vars []types.Object, maps, ghosts []s
 func (x *Exec) genericLoop(st *State, fr *Frame, node ast.Node, body []ast.Stmt, hidden func(*State) map[string]Term,
 	head func(st *State, enter func(*State), exit func(*State)), post func(*State, func(*State)), k func(*State)) {
 
+	// a variable declared before the loop whose address is taken inside it is one memory cell
+	// for all iterations: give it its cell now (a cell created lazily inside the cut loop
+	// body would be a fresh one in the arbitrary iteration, hiding aliasing across iterations)
+	x.cellsForAddrTaken(st, node)
 	lc, ord := x.loopContract(fr, node)
 	tag := fmt.Sprintf("L%d", ord)
 	lenv := func(s *State) *CEnv {
